@@ -254,6 +254,8 @@ def check(case, rec):
         return check_scaled(case, rec)
     if 'short_mid' in case:
         return check_short_mid(case, rec)
+    if 'cut_with_index' in case:
+        return check_cut_with_index(case, rec)
     if 'raw_ts' not in case:
         return check_daqmx(case, rec)
     fs = case['fs']
@@ -536,6 +538,73 @@ def check_short_mid(case, rec):
 
 
 @st.composite
+def cut_index_cases(draw):
+    fs = draw(S.file_spec(min_segments=1, max_segments=4, max_channels=3, max_n=4, max_chunks=3, props=False,
+                          types=['i8', 'i16', 'i32', 'u64', 'f32', 'f64', 'bool', 'ts', 'c64'], values='unique',
+                          names='simple', nodata_entries=False))
+    return {'fs': fs, 'cut_with_index': draw(st.integers(0, 10 ** 6)), 'pathlib': draw(st.booleans())}
+
+
+def check_cut_with_index(case, rec):
+    """a data file cut inside its last segment, with the complete .tdms_index beside it: reading it by path (which uses the
+    index) must give what reading the same bytes as a stream (no index) gives, for every access path"""
+    from nptdms import TdmsFile
+    from vf.observe import le_bytes, raw_ts_pairs
+    import struct
+    import pathlib
+    fs = case['fs']
+    data, index, lay = encode_file(fs, with_index=True)
+    raw = lay[-1]['end'] - lay[-1]['data_pos']
+    if raw < 2:
+        return
+    blob = data[:lay[-1]['data_pos'] + 1 + case['cut_with_index'] % (raw - 1)]
+    rec.nontrivial(True)
+    rec.label('cut_file_next_to_complete_index', *S.spec_classes(fs))
+
+    def norm(a):
+        if len(a) == 0:
+            return b''
+        if hasattr(a, 'dtype') and a.dtype.names:
+            return b''.join(struct.pack('<qQ', sec, frac) for (sec, frac) in raw_ts_pairs(a))
+        return le_bytes(np.asarray(a))
+
+    def snapshot(tf, lazy):
+        out = {}
+        for g in tf.groups():
+            for ch in g.channels():
+                d = {'len': len(ch), '[:]': norm(ch[:]), 'read_data': norm(ch.read_data())}
+                if lazy:
+                    d['chunks'] = b''.join(norm(c[:]) for c in ch.data_chunks())
+                    d['file_chunks'] = b''.join(norm(c[g.name][ch.name][:]) for c in tf.data_chunks())
+                    d['tail'] = norm(ch.read_data(max(len(ch) - 2, 0), 5))
+                out[ch.path] = d
+        out['status'] = bool(tf.file_status.incomplete_final_segment)
+        return out
+    try:
+        ref_e = snapshot(TdmsFile.read(io.BytesIO(blob), raw_timestamps=True), False)
+        with TdmsFile.open(io.BytesIO(blob), raw_timestamps=True) as tf:
+            ref_l = snapshot(tf, True)
+    except Exception:       # noqa  reading the cut file as a stream is C06's business
+        rec.stat('reference_raised')
+        return
+    with scratch_file(blob, as_path=True, index=index) as (src, _tmp):
+        path = pathlib.Path(src) if case['pathlib'] else src
+        for mode, ref in (('eager', ref_e), ('lazy', ref_l)):
+            def run():
+                if mode == 'eager':
+                    return snapshot(TdmsFile.read(path, raw_timestamps=True), False)
+                with TdmsFile.open(path, raw_timestamps=True) as tf:
+                    return snapshot(tf, True)
+            ok, got = rec.guard('access:by_path_with_index:' + mode, run)
+            if ok and got != ref:
+                bad = [k for k in ref if got.get(k) != ref[k]][:1] or ['(objects differ)']
+                sub = [k for k in (ref[bad[0]] if isinstance(ref[bad[0]], dict) else {}) if got.get(bad[0], {}).get(k) != ref[bad[0]][k]]
+                rec.violation('agree:by_path_with_index:' + mode, '%s %s: by path (index file used) %r, as a stream (no index) %r' % (
+                    bad[0], sub[:2], str({k: got.get(bad[0], {}).get(k) for k in sub[:2]} if sub else got.get(bad[0]))[:120],
+                    str({k: ref[bad[0]][k] for k in sub[:2]} if sub else ref[bad[0]])[:120]))
+
+
+@st.composite
 def daqmx_cases(draw):
     from vf.daqmx import daqmx_file
     return {'fs': draw(daqmx_file(max_len=4)), 'memmap': draw(st.integers(0, 3)) == 0, 'as_path': draw(st.integers(0, 3)) == 0}
@@ -581,6 +650,7 @@ def jobs(tier):
                 Job('long_files_shared_offset_prefix', 'hyp', twin_cases, n=48),
                 Job('daqmx_files', 'hyp', daqmx_cases, n=800, check=check_daqmx),
                 Job('short_chunk_in_middle_segment', 'hyp', short_mid_cases, n=1200, check=check_short_mid),
+                Job('cut_file_next_to_its_index', 'hyp', cut_index_cases, n=500, check=check_cut_with_index),
                 Job('scaled_channels', 'hyp', _scaled_cases, n=800, check=check_scaled),
                 Job('every_scale_type', 'enum', sensor_scaled_cases(), exhaustive=True, check=check_scaled,
                     note='every scale type of the C14 matrix x 3 raw types: all access paths against the eager full read')]
@@ -589,6 +659,7 @@ def jobs(tier):
             Job('bigger', 'hyp', lambda: cases(max_segments=8, max_n=60, max_chunks=4), n=20000),
             Job('daqmx_files', 'hyp', daqmx_cases, n=30000, check=check_daqmx),
             Job('short_chunk_in_middle_segment', 'hyp', short_mid_cases, n=40000, check=check_short_mid),
+            Job('cut_file_next_to_its_index', 'hyp', cut_index_cases, n=15000, check=check_cut_with_index),
             Job('scaled_channels', 'hyp', _scaled_cases, n=30000, check=check_scaled),
             Job('every_scale_type', 'enum', sensor_scaled_cases(), exhaustive=True, check=check_scaled,
                 note='every scale type of the C14 matrix x 3 raw types: all access paths against the eager full read')]
